@@ -65,6 +65,7 @@ let parse_vop (a : string list) : vop =
 let parse_mop (a : string list) : mop =
   match a with
   | ["set"; k; v] -> MSet (key_of_string k, key_of_string v)
+  | ["set_pk"; k; v] -> MSet (key_of_string k, key_of_string v)
   | ["set_pv"; k; a; b] -> MSet (key_of_string k, key_of_string (a ^ "z" ^ b))
   | ["get"; k] -> MGet (key_of_string k)
   | ["remove"; k] -> MRemove (key_of_string k)
